@@ -185,7 +185,44 @@ def cases(tier, seed):
     out = [{"tool": t, "seed": seed, "bound": bounds(tier)["deviation_bound"], "w": 5 if t in ("taste", "chk2plt", "pestle") else 1}
            for t in sorted(TOOLS)]
     out.append({"tool": "@chef_history", "seed": seed, "bound": 1, "w": 10})
+    out.append({"tool": "@cwd_history", "seed": seed, "bound": 1, "w": 10})
     return out
+
+
+# ---- two operations in one process with a change of working directory in between (relative paths) -----------------
+CWD_TOOLS = ["reader_slice", "reader_iter", "taste", "colander", "combine_bybox", "chef", "mandoline3d", "mandoline2d", "pestle", "whip", "chk2plt"]
+
+
+def rel_env(env, cwd):
+    return {k: (os.path.relpath(v, cwd) if isinstance(v, str) and os.path.isabs(v) else v) for k, v in env.items()}
+
+
+def cwd_history_envs(workdir, seed):
+    envs = []
+    for name, sd in (("A", seed), ("B", seed + 7)):
+        d = os.path.join(workdir, "cwd" + name)
+        os.makedirs(d)
+        envs.append((d, make_env(d, sd)))
+    return envs
+
+
+def run_cwd_case(case, workdir, rec):
+    (da, ea), (db, eb) = cwd_history_envs(workdir, case["seed"])
+    for tool in CWD_TOOLS:
+        os.chdir(db)
+        ctl, ev, dg, obs = observe(tool, rel_env(eb, db), "out_" + tool, False, {})
+        rec.exe(["cwd_history", tool], nontrivial=True)
+        rec.outcome("cwdhist_%s:%016x" % (tool, dg))
+        # in-process: the same operation after another one elsewhere must give the same observation
+        os.chdir(da)
+        observe(tool, rel_env(ea, da), "out_" + tool, False, {})
+        os.chdir(db)
+        ctl, ev, dg2, obs2 = observe(tool, rel_env(eb, db), "out_" + tool, False, {})
+        if dg2 != dg:
+            rec.fail("history_dependent", {"tool": tool, "history": "same tool on another directory first, then chdir"},
+                     "%r vs %r" % (obs2, obs))
+    os.chdir(workdir)
+    rec.sample({"history": "chdir(A); tool(relative paths); chdir(B); tool(same relative paths, other content)", "tools": CWD_TOOLS})
 
 
 # ---- history of two parallel Cantera cooks in one process (pool lifetime) -------------------------------------------
@@ -343,6 +380,9 @@ def run_case(case, workdir):
     if tool == "@chef_history":
         run_history_case(case, workdir, rec)
         return rec.result()
+    if tool == "@cwd_history":
+        run_cwd_case(case, workdir, rec)
+        return rec.result()
     env = make_env(workdir, case["seed"])
     fn, has_serial = TOOLS[tool]
     out = os.path.join(workdir, "out_" + tool)
@@ -397,6 +437,18 @@ def parent_pass(tier, seed, workdir):
         par = cook(paths[second], os.path.join(workdir, "hX"), pressure, False)
         res.append({"outcome": "chef_history_%s:%016x" % (hname, h64(par)), "what": "chef history %s under the real pathos pool" % hname,
                     "obs": repr(par)[:200]})
+    _reset_pathos()
+    # (1b) two operations with a change of working directory in between, relative paths, REAL pools
+    # (a pool that outlives the first operation keeps its workers' working directory)
+    (da, ea), (db, eb) = cwd_history_envs(workdir, seed)
+    for tool in CWD_TOOLS:
+        os.chdir(da)
+        observe(tool, rel_env(ea, da), "out_" + tool, False, None, controlled=False)
+        os.chdir(db)
+        ctl, ev, dg, obs = observe(tool, rel_env(eb, db), "out_" + tool, False, None, controlled=False)
+        res.append({"outcome": "cwdhist_%s:%016x" % (tool, dg), "what": "%s after the same tool in another working directory (real pools)" % tool,
+                    "obs": repr(obs)[:200]})
+    os.chdir(workdir)
     _reset_pathos()
     # (2) every tool once under the real pools
     env = make_env(workdir, seed)
